@@ -27,6 +27,62 @@ type prog struct {
 	failed bool
 	op     string
 	lazy   bool // vary the observation route and skip some intermediate observations
+	ctx    bool // issue some of the calls from inside a callback of an iteration over a live container
+}
+
+// insideCallback wraps a call so that it is made by the first callback invocation of an iteration (ForEach, ForEachValue,
+// Map, Filter ...) over some live container of the heap, possibly the very container the call changes; a container
+// without elements never invokes the callback, then the call is made right after. A call is a call wherever it is made
+// from: what the surrounding iteration goes on to visit is not judged.
+func (p *prog) insideCallback(f func()) func() {
+	var hosts []*model.Node
+	for _, n := range p.h.Nodes {
+		if n.Real != nil {
+			hosts = append(hosts, n)
+		}
+	}
+	if len(hosts) == 0 {
+		return f
+	}
+	host := hosts[p.r.Intn(len(hosts))]
+	mode := p.r.Intn(5)
+	p.c.Count("calls_from_inside_a_callback")
+	return func() {
+		done := false
+		once := func() {
+			if !done {
+				done = true
+				f()
+			}
+		}
+		switch x := host.Real.(type) {
+		case at.List:
+			switch mode {
+			case 0:
+				x.ForEach(func(int, any) { once() })
+			case 1:
+				x.ForEachValue(func(any) { once() })
+			case 2:
+				x.Map(func(i int, v any) any { once(); return nil })
+			case 3:
+				x.Filter(func(any) bool { once(); return true })
+			default:
+				x.Reduce(0, func(a, b any) any { once(); return a })
+			}
+		case at.Object:
+			switch mode {
+			case 0, 4:
+				x.ForEach(func(string, any) { once() })
+			case 1:
+				x.ForEachValue(func(any) { once() })
+			case 2:
+				x.Map(func(k string, v any) any { once(); return nil })
+			default:
+				x.MapValues(func(v any) any { once(); return nil })
+			}
+		}
+		once()
+	}
 }
 
 func (p *prog) input() string {
@@ -47,7 +103,11 @@ func (p *prog) step(op, desc string, wantPanic bool, f func()) (panicked bool) {
 	p.trace = append(p.trace, desc)
 	p.c.SetAdd("ops", op)
 	p.c.Count("steps")
-	panicked, msg := drive.Protect(f)
+	run := f
+	if p.ctx && p.r != nil && p.r.Chance(1, 10) {
+		run = p.insideCallback(f)
+	}
+	panicked, msg := drive.Protect(run)
 	if panicked && !wantPanic {
 		p.fail("unexpected-panic:"+op, "no panic (arguments inside the documented domain)", "panic: "+msg)
 		return
@@ -90,7 +150,7 @@ func (p *prog) expect(ok bool, what, expected, observed string) {
 }
 
 var c05Ints = []int{0, 1, 2, 3, -1, 7, 1 << 30, math.MaxInt, math.MinInt, -2}
-var c05Floats = []float64{0.5, 1, 2.5, -3, 1e21, 0}
+var c05Floats = []float64{0.5, 1, 2.5, -3, 1e21, 0, math.Inf(1), math.Inf(-1), math.MaxFloat64, 5e-324}
 var c05Strs = []string{"a", "b", "", "zz", "a b", "é"}
 
 // scalarVal draws from a small pool so that duplicates are frequent.
@@ -301,7 +361,7 @@ func runC05(c *fw.Ctx) {
 		c.Distinct(p.input())
 	})
 	c.Cases("programs", c.N(1500, 150000), false, func(i int, r *rng.R) {
-		p := &prog{c: c, r: r, h: &model.Heap{}, lazy: i%2 == 1}
+		p := &prog{c: c, r: r, h: &model.Heap{}, lazy: i%2 == 1, ctx: i%3 == 0}
 		guard(c, p.input, func() {
 			c05Program(p, steps)
 			p.checkHeap()
@@ -506,8 +566,11 @@ func c05Program(p *prog, steps int) {
 			op = 45 + r.Intn(20) // prefer shrinking operations on long lists
 		}
 		switch {
-		case op < 12: // Add (sometimes a growth burst past the capacity)
+		case op < 12: // Add (sometimes a growth burst past the capacity, now and then without any argument)
 			k := r.Range(1, 3)
+			if r.Chance(1, 12) {
+				k = 0
+			}
 			if r.Chance(1, 6) {
 				k = r.Range(4, burst)
 			}
